@@ -242,13 +242,22 @@ class Executor(EvalMixin, MethodsMixin, ExecMixin):
             return VFun("%s[contract]" % cu.name, call)
         return factory
 
-    def snapshot(self, v, st):
-        """deep-enough copy of a heap value for old(): lists, dicts; objects one level deep"""
+    def snapshot(self, v, st, depth=0):
+        """deep-enough copy of a heap value for old(): lists, dicts; objects three levels deep (old(self).fmtdict.__dict__:
+        with one level only, old(self).fmtdict was the LIVE scope object and `old` clauses about it held trivially --
+        found by a mutant of eval_template that verified)"""
         cell = st.heap[v.oid]
         if isinstance(cell, HObj):
             f = {}
             for k, x in cell.f.items():
-                f[k] = self.snapshot(x, st) if isinstance(x, VRef) and isinstance(st.heap[x.oid], (HList, HCList, HDict)) else x
+                inner = x.val if isinstance(x, VOpt) else x
+                if isinstance(inner, VRef) and isinstance(st.heap[inner.oid], (HList, HCList, HDict)):
+                    c = self.snapshot(inner, st, depth + 1)
+                    f[k] = VOpt(x.isnone, c) if isinstance(x, VOpt) else c
+                elif isinstance(x, VRef) and isinstance(st.heap[x.oid], HObj) and depth < 2:
+                    f[k] = self.snapshot(x, st, depth + 1)
+                else:
+                    f[k] = x
             return st.alloc(HObj(cell.cls, f))
         return st.alloc(cell)
 
